@@ -33,7 +33,8 @@ Pool == <<
   [k |-> "term", d |-> Node("DEBOOL", <<G1("X1")>>), tx |-> <<>>, tm |-> <<>>],                                 \* 9  an element of X1 (not a set)
   [k |-> "term", d |-> G1("X1"), tx |-> <<Ref("D1"), Ref("D2"), Ref("X1")>>, tm |-> <<>>],          \* 10 text mentions D1, D2, X1
   [k |-> "term", d |-> G1("X1"), tx |-> <<>>, tm |-> <<Ref("X1")>>],                               \* 11 term names X1
-  [k |-> "term", d |-> G1("X1"), tx |-> <<>>, tm |-> << Ref("D1"), [r |-> FALSE, s |-> "of"] >> ]     \* 12 term names D1
+  [k |-> "term", d |-> G1("X1"), tx |-> <<>>, tm |-> << Ref("D1"), [r |-> FALSE, s |-> "of"] >> ],    \* 12 term names D1
+  [k |-> "term", d |-> Node("UNION", <<G1("D2"), G1("X1")>>), tx |-> <<>>, tm |-> <<>>]            \* 13 depends on D2 (chains D1 <- D2 <- D3)
 >>
 PoolA == 1..Len(Pool)
 PoolB == 1..Len(Pool)
